@@ -81,7 +81,13 @@ def child(out, k, N, extra_rate=None, interrupt_at=None):
         else:
             real_replace(a, b)
     U.open = my_open            # module-level name lookups in panqec.utils resolve here first
-    U.gzip = type('G', (), {'open': staticmethod(my_gzopen)})
+    class _GzipProxy:
+        """gzip with an instrumented open(); everything else (compress, GzipFile, ...) is the real module"""
+        open = staticmethod(my_gzopen)
+
+        def __getattr__(self, name_):
+            return getattr(gzip, name_)
+    U.gzip = _GzipProxy()
     U.os = type('O', (), {'path': os.path, 'replace': staticmethod(my_replace), '__getattr__': lambda s, n: getattr(os, n)})()
     real_save = U.save_json
 
